@@ -183,30 +183,48 @@ func loadReplay(path string) (*crashsim.Scenario, error) {
 
 func main() {
 	ctx := hx.Init("C13")
-	cfg := crashsim.Config{N: 3, L: 4}
-	w := crashsim.TheWorld(cfg)
+	worldOf := func(scn *crashsim.Scenario) *crashsim.World {
+		cfg := crashsim.Config{N: scn.N, L: scn.L}
+		if cfg.N == 0 || cfg.L == 0 {
+			cfg = crashsim.Config{N: 3, L: 4}
+		}
+		return crashsim.TheWorld(cfg)
+	}
 	if ctx.Replay != "" {
 		scn, err := loadReplay(ctx.Replay)
 		if err != nil {
 			hx.Fatal("replay: %v", err)
 		}
-		runScenario(ctx, w, scn, "replay")
+		runScenario(ctx, worldOf(scn), scn, "replay")
 	} else {
 		if dir := os.Getenv("VERIF_CORPUS"); dir != "" {
 			files, _ := filepath.Glob(filepath.Join(dir, "*.json"))
 			sort.Strings(files)
 			for _, f := range files {
 				if scn, err := loadReplay(f); err == nil {
-					runScenario(ctx, w, scn, "corpus:"+filepath.Base(f))
+					runScenario(ctx, worldOf(scn), scn, "corpus:"+filepath.Base(f))
 				}
 			}
 		}
 		rnd := hx.NewRand(ctx.Seed)
 		chains := ctx.Scale(12, 120)
 		for i := 0; i < chains; i++ {
-			mainLen := rnd.Range(5*int(cfg.L), 7*int(cfg.L))
+			// epoch lengths 2..8, 3..7 validators; the first four chains fix the corners
+			cfg := crashsim.Config{L: uint32(rnd.Range(2, 8)), N: rnd.Range(3, 7)}
+			switch i {
+			case 0:
+				cfg = crashsim.Config{L: 4, N: 3}
+			case 1:
+				cfg = crashsim.Config{L: 2, N: 4}
+			case 2:
+				cfg = crashsim.Config{L: 8, N: 7}
+			case 3:
+				cfg = crashsim.Config{L: 3, N: 5}
+			}
+			mainLen := min(rnd.Range(4*int(cfg.L), 6*int(cfg.L)), 34)
 			scn := crashsim.Gen(rnd.Fork(uint64(i)), cfg, mainLen)
-			runScenario(ctx, w, scn, fmt.Sprintf("seed %d chain %d", ctx.Seed, i))
+			ctx.Cov.Count(fmt.Sprintf("config:L=%d,N=%d", cfg.L, cfg.N))
+			runScenario(ctx, crashsim.TheWorld(cfg), scn, fmt.Sprintf("seed %d chain %d", ctx.Seed, i))
 		}
 	}
 	ctx.Finish("distinct scenarios (canonical JSON); non-trivial = at least 8 stored blocks, 2 store points and a fork or a block with transactions; every cut position of every scenario is evaluated",
